@@ -223,6 +223,7 @@ def run(F, rep):
                   'in the pass over the equations the external variables are removed from mUnknownVariables (statement %s of the loop body) after the NLA siblings are determined (statement %s): equations that share only an external variable are tied into one NLA system' % (ip, isb),
                   'pruned (statement %s) before sibling detection (statement %s)' % (ip, isb))
 
+    _borrow_c17(F, rep)   # which models count as "has ODEs" decides whether the callback takes voi/states/rates: clause shared with C17
     rep.rule('C20.R1', 'isStateRateBased marks an equation as checked BEFORE it descends into the equation\'s dependencies (user-supplied dependencies of external variables can be cyclic: a depends on b, b on a)')
     isr = F.fn1('Analyser::AnalyserImpl::isStateRateBased')
     recs = [c for c in isr.walk() if c.get('k') == 'Call' and isr.key in F.callee_keys(c)]
@@ -263,3 +264,10 @@ def _all_paths_pass(cfg, start, target, through_ids):
             continue
         st.extend(cfg.succ[b])
     return True
+
+
+def _borrow_c17(F, rep):
+    if not getattr(rep, 'nested', False):
+        import core
+        import c17
+        c17.run(F, core.Borrowed(rep, only={'C17.O1'}))
